@@ -130,6 +130,23 @@ func (e *Exec) pickNext(th *Thread, free bool) *Thread {
 	if selfEnabled && !free && e.preempts >= e.cfg.Preempt {
 		return th
 	}
+	if e.cfg.Replaying {
+		if e.schedPos >= len(e.cfg.FixedSched) {
+			panic(&Desync{"schedule exhausted during replay"})
+		}
+		want := e.cfg.FixedSched[e.schedPos]
+		e.schedPos++
+		for _, c := range cands {
+			if c.id == want {
+				e.sched = append(e.sched, c.id)
+				if selfEnabled && !free && c != th {
+					e.preempts++
+				}
+				return c
+			}
+		}
+		panic(&Desync{fmt.Sprintf("replayed schedule picks thread %d which is not enabled", want)})
+	}
 	conds := make([]*smt.Term, len(cands))
 	for i := range conds {
 		conds[i] = e.ctx.BoolC(true)
